@@ -15,7 +15,15 @@ CallU(c) ==
   /\ hist' = Append(hist, c)
   /\ res' = Append(res, Result(c, residue))
   /\ residue' = residue \cup Leaves(c)
-NextU == \E c \in Calls : CallU(c)
+  /\ UNCHANGED overlap
+\* two calls at the same time, at any point of the session
+CallPairU(c1, c2) ==
+  /\ hist' = Append(Append(hist, c1), c2)
+  /\ res' = Append(Append(res, Result(c1, residue \cup Leaves(c2))), Result(c2, residue \cup Leaves(c1)))
+  /\ residue' = residue \cup Leaves(c1) \cup Leaves(c2)
+  /\ overlap' = overlap \cup {Len(hist) + 1}
+NextU == \/ \E c \in Calls : CallU(c)
+         \/ \E c1, c2 \in Calls : CallPairU(c1, c2)
 SpecU == Init /\ [][NextU]_svars
 
 Results == {Alone(c) : c \in Calls}
@@ -41,9 +49,9 @@ LEMMA StepInv == IndInv /\ [NextU]_svars => IndInv'
   OBVIOUS
 <1>1. CASE UNCHANGED svars
   BY <1>1 DEF IndInv, svars, Results
-<1>2. CASE NextU
+<1>2. CASE \E c \in Calls : CallU(c)
   <2>1. PICK c \in Calls : CallU(c)
-    BY <1>2 DEF NextU
+    BY <1>2
   <2>2. Result(c, residue) = Alone(c) /\ Alone(c) \in Results
     BY AloneWhenClean DEF IndInv, Results
   <2>3. residue' = {}
@@ -54,8 +62,29 @@ LEMMA StepInv == IndInv /\ [NextU]_svars => IndInv'
     BY <2>1, <2>2 DEF CallU, IndInv
   <2> QED
     BY <2>3, <2>4, <2>5 DEF IndInv
+<1>3. CASE \E c1, c2 \in Calls : CallPairU(c1, c2)
+  <2>1. PICK c1 \in Calls, c2 \in Calls : CallPairU(c1, c2)
+    BY <1>3
+  <2>2. /\ Result(c1, residue \cup Leaves(c2)) = Alone(c1) /\ Alone(c1) \in Results
+        /\ Result(c2, residue \cup Leaves(c1)) = Alone(c2) /\ Alone(c2) \in Results
+    BY AloneWhenClean, NothingLeft DEF IndInv, Results
+  <2>3. residue' = {}
+    BY <2>1, NothingLeft DEF CallPairU, IndInv
+  <2> DEFINE h1 == Append(hist, c1)
+             r1 == Append(res, Alone(c1))
+  <2>4. /\ h1 \in Seq(Calls) /\ r1 \in Seq(Results) /\ Len(r1) = Len(h1)
+        /\ \A i \in 1..Len(h1) : r1[i] = Alone(h1[i])
+    BY <2>2 DEF IndInv
+  <2>5. hist' = Append(h1, c2) /\ res' = Append(r1, Alone(c2))
+    BY <2>1, <2>2 DEF CallPairU
+  <2>6. hist' \in Seq(Calls) /\ res' \in Seq(Results) /\ Len(res') = Len(hist')
+    BY <2>2, <2>4, <2>5
+  <2>7. \A i \in 1..Len(hist') : res'[i] = Alone(hist'[i])
+    BY <2>2, <2>4, <2>5
+  <2> QED
+    BY <2>3, <2>6, <2>7 DEF IndInv
 <1> QED
-  BY <1>1, <1>2
+  BY <1>1, <1>2, <1>3 DEF NextU
 
 THEOREM AnyLength == SpecU => [](CallsAreIndependent /\ NoResidue)
 <1>1. IndInv => CallsAreIndependent /\ NoResidue
